@@ -228,7 +228,7 @@ def prove_shape(eng, o, where):
     ok = ok and (isinstance(o.ct, bool) or (z3.is_expr(o.ct) and o.ct.sort() == BoolS))
     for x in (o.sl, o.ic, o.sf, o.cf):
         ok = ok and ((isinstance(x, int) and not isinstance(x, bool)) or (z3.is_expr(x) and x.sort() == IntS))
-    eng.prove("field-kinds:" + where, ok, props=("C01", "C02", "C03", "C04", "C20"))
+    eng.prove("field-kinds:" + where, ok, props=("C01", "C02", "C03", "C04", "C20", "C08"))
     if not ok:
         raise PathEnd()
 
@@ -597,9 +597,9 @@ def unit_iter_tokens(sess, ctx, active):
             n0 = IntVal(0)
             g0 = Ghost("entry.")
             eng.assume(And(g0.last_end == -1, Not(g0.last_cut)))
-            eng.prove("C20:frame-counter-reset", I(o.cf) == -1, props=("C20", "C01"))
+            eng.prove("C20:frame-counter-reset", I(o.cf) == -1, props=("C20", "C01", "C08"))
             eng.assume(defs_at(n0, p))
-            check_inv_post(eng, p, o, n0, g0, k0, active, "_iter_tokens:entry(C20)", extra=("C20",))
+            check_inv_post(eng, p, o, n0, g0, k0, active, "_iter_tokens:entry(C20)", extra=("C20", "C08"))
             # ---- arbitrary iteration
             f = Fields("it.")
             g = Ghost("it.")
